@@ -11,13 +11,14 @@ CLASSES = [
     cabc.Sequence, cabc.Iterable, cabc.Collection, cabc.Container, cabc.Mapping, cabc.Hashable, cabc.Sized,
     cabc.MutableSequence, cabc.Set,
     U.A, U.B, U.Cc, U.D, U.Color, U.IE, enum.Enum, enum.IntEnum, type(enum.Enum), abc.ABCMeta,
+    U.Fl,  # appended last: class ids of the classes above are referred to by Lean witnesses
 ]
 CID = {c: i for i, c in enumerate(CLASSES)}
 NEWTYPES = [U.NT0, U.NT1, U.NT2]
 TYPEVARS = [typing.TypeVar("T0"), typing.TypeVar("T1"), typing.TypeVar("T2")]
 FLOATS = [1.5, 2.5, -0.5]
 COMPLEXES = [1.5j, 2 + 0.5j]
-N_INST = {U.A: 2, U.B: 2, U.Cc: 1, U.D: 1, U.Color: 2, U.IE: 2}
+N_INST = {U.A: 2, U.B: 2, U.Cc: 1, U.D: 1, U.Color: 2, U.IE: 2, U.Fl: 1}
 
 
 def cname(c):
